@@ -38,9 +38,10 @@ def dist_entry(rng, name, chfs):
     return {"filename": name, "chksums": ck}
 
 
-def spec(rng, big=False):
+def spec(rng, big=False, thin=None):
     pn = rng.choice(["pkg", "foo-bar", "x", "Pkg_9", "libfoo+"])
-    thin = rng.random() < 0.3
+    r = rng.random()
+    thin = r < 0.3 if thin is None else thin
     files, excluded, symlinks = {}, {}, {}
     for v in rng.sample(VERS, rng.randrange(1, 6)):
         files["%s-%s.ebuild" % (pn, v)] = content(rng)
